@@ -19,6 +19,7 @@ EXPLANATION = (
     'Also decided (round 7): The presented key is compared with the configured one by equality; SQL the sqlite storage uses to answer a regex listing is held to the same literal-matching rule as the anchored pattern check. '
     "Not decided: HTTP parsing by wsgiref/urllib, what the operator's regex matches, JSON content."
     'Also decided (round 9): The forwarding proxy is constructed for the request. '
+    'Also decided (round 11): String methods are called on the presented key only once it is known to be a str; the retry bound of the proxy method object is shared from C03 (one HTTP request, one invocation). '
     'Also decided (round 10): The json encoder behind the gateway encodes the whole result or raises (shared from C01). '
 )
 
